@@ -9,6 +9,7 @@ import (
 	"go/types"
 	"path/filepath"
 	"sort"
+	"strconv"
 	"strings"
 
 	"golang.org/x/tools/go/ssa"
@@ -169,9 +170,48 @@ func propC08(r *Run, w *World) {
 	x.ackVerified("C08.R1", nil)
 	x.getReplyRules()
 	x.noErrorDropped()
+	x.errnoIdentity()
 	x.failFastInLoops()
 	x.dataReplies()
 	x.setFunnel("C08.R6")
+	// what GetStatus hands back is what FromWireFormat makes of reply.Data, a window into the
+	// reused receive buffer: bytes beyond the reply must not be read (shared with C16.R5)
+	statusDecode(r, w, x, "C08.R9")
+	x.seqNeverZero("C08.R10")
+}
+
+// seqNeverZero: getReply tells an unsolicited event from a reply by sequence number 0, so a
+// request must never carry 0 (necessary for C08.R2 to mean what it says; the full treatment of
+// the sequence is C18.R2).
+func (x *client) seqNeverZero(ruleID string) {
+	r := x.r
+	r.Rule(ruleID, "own requests never carry sequence 0 (which getReply takes for an unsolicited event): Send stamps Header.Seq with the result of its single atomic.AddUint32(&c.seq, 1) - the incremented value, so the first is 1 - and nothing else writes c.seq", 2)
+	fn := x.nlSend
+	adds := callsNamedIn(fn, "sync/atomic.AddUint32")
+	okA := len(adds) == 1 && Term(adds[0].Common().Args[0]) == "&p0.seq" && isConstInt(adds[0].Common().Args[1], 1)
+	r.Check(okA, "Send increments before use", fn.Pos(), "atomic.AddUint32(&c.seq, 1)", "Send does not take its sequence from one atomic.AddUint32(&c.seq, 1): the first request can carry 0, and getReply then cannot tell its reply from an unsolicited event")
+	if okA {
+		undo := alias(adds[0].Value(), "seq")
+		n := 0
+		for _, st := range storesOf(fn) {
+			if strings.HasSuffix(AddrTerm(st.Addr), ".Header.Seq") {
+				n++
+				r.Check(Term(st.Val) == "seq", "Header.Seq is the incremented value", st.Pos(), "", "Header.Seq is "+Term(st.Val)+", not the result of the increment")
+			}
+		}
+		r.Check(n == 1, "Header.Seq stamped once", fn.Pos(), "", fmt.Sprintf("%d stores to Header.Seq in Send", n))
+		undo()
+	}
+	for _, a := range Writes(x.w.FieldAccesses(x.fSeq)) {
+		okW := a.Kind == "atomic" || strings.Contains(a.Kind, "atomic") || (a.Fn == fn && a.Kind == "addrarg")
+		if !okW {
+			// the atomic add takes the address: accept only that
+			if ci, isCall := a.Instr.(ssa.CallInstruction); isCall && strings.HasPrefix(calleeName(ci), "sync/atomic.") {
+				okW = true
+			}
+		}
+		r.Check(okW, "seq "+a.Kind+" in "+fnName(a.Fn), a.Instr.Pos(), "", "c.seq is written other than by the atomic increment ("+a.Kind+")")
+	}
 }
 
 // ackSites finds, per function, the getReply calls that read an acknowledgement.
@@ -192,6 +232,8 @@ func (x *client) ackVerified(ruleID string, only *ssa.Function) {
 	r := x.r
 	if only == nil {
 		r.Rule(ruleID, "ACK is verified in every sibling: on every path from an acknowledgement read (getReply) to a success return, the reply type is tested == NLMSG_ERROR and ParseNetlinkError(reply.Data) is tested == nil; every failing edge returns a non-nil error without reading further", 12)
+	} else if only == x.getStatus {
+		r.Rule(ruleID, "GetStatus judges its acknowledgement before it reads on: the ACK's type and ParseNetlinkError(ack.Data) == nil are established before the next receive (which reuses the buffer ack.Data points into) and before the success return (shared with C08.R1)", 2)
 	} else {
 		r.Rule(ruleID, "WaitForPendingACKs returns the first failure and stops: every failing edge of an acknowledgement read returns a non-nil error without reading further; success only with every ACK verified", 3)
 	}
@@ -580,6 +622,45 @@ func (x *client) failFastInLoops() {
 				r.Check(okRet || joined, key, failed[0].Pos(), "the failed call ends the command with an error", "a call that failed inside the loop does not end the command: the loop continues and a later successful iteration can overwrite the error: "+compactPath(p))
 			}
 		}
+	}
+}
+
+// errnoIdentity: kernel verdicts are compared with errno values, not with portable sentinels.
+func (x *client) errnoIdentity() {
+	r := x.r
+	r.Rule("C08.R8", "the kernel's errno is identified exactly: every errors.Is in the client compares with a syscall.Errno constant or a sentinel of this package; a portable sentinel of os / io/fs matches several errnos (ErrExist also ENOTEMPTY, ErrNotExist also …, ErrPermission both EACCES and EPERM) and would report one verdict as another", 3)
+	for _, fn := range x.w.PkgFuncs("libaudit") {
+		if !x.isClientCode(fn) {
+			continue
+		}
+		var scan func(f *ssa.Function)
+		scan = func(f *ssa.Function) {
+			for _, c := range callsNamedIn(f, "errors.Is") {
+				if len(c.Common().Args) != 2 {
+					continue
+				}
+				tgt := stripConv(c.Common().Args[1])
+				key := "errors.Is target in " + fnName(f) + ": " + Term(tgt)
+				switch v := tgt.(type) {
+				case *ssa.Const:
+					r.Check(typeStr(v.Type()) == "syscall.Errno", key, c.Pos(), "errno constant", "errors.Is compares with a constant that is not a syscall.Errno")
+				case *ssa.UnOp:
+					g, isG := v.X.(*ssa.Global)
+					if v.Op == token.MUL && isG && g.Pkg != nil {
+						pp := g.Pkg.Pkg.Path()
+						r.Check(strings.HasPrefix(pp, modulePath), key, c.Pos(), "sentinel of this module", "errors.Is compares a kernel verdict with "+Term(tgt)+": a portable sentinel matches more than one errno, so a different verdict is reported as this one and errors.Is on the returned error no longer identifies what the kernel said")
+					} else {
+						r.Undecided(key, c.Pos(), "target of errors.Is is neither an errno constant nor a package-level sentinel")
+					}
+				default:
+					r.Undecided(key, c.Pos(), "target of errors.Is is neither an errno constant nor a package-level sentinel")
+				}
+			}
+			for _, af := range f.AnonFuncs {
+				scan(af)
+			}
+		}
+		scan(fn)
 	}
 }
 
@@ -1395,6 +1476,56 @@ func propC18(r *Run, w *World) {
 			r.Check(ok, "readBuf stored by NewNetlinkClient", a.Instr.Pos(), "fresh positive-size buffer, or the caller's non-empty buffer", "the read buffer stored into the client can be "+detail)
 		}
 		r.Check(n >= 1, "readBuf is stored by the constructor", fn.Pos(), "", "the constructor never stores a read buffer")
+		// the audit client hands NewNetlinkClient a buffer whose *length* holds the largest
+		// datagram the kernel sends (header + AuditMessageMaxLength); with a shorter or
+		// zero-length one the default page-sized buffer is used or long records are cut
+		maxLen, _, errM := w.constUint("libaudit", "AuditMessageMaxLength")
+		hdrLen := x.sysc["NLMSG_HDRLEN"]
+		if errM != nil {
+			r.Anchor(errM)
+		} else {
+			nc := 0
+			for _, cs := range w.CallSites(fn) {
+				if !strings.HasPrefix(fnName(cs.Caller), "libaudit.") || cs.Kind != "static" {
+					continue
+				}
+				ci, _ := cs.Instr.(ssa.CallInstruction)
+				if ci == nil || len(ci.Common().Args) < 3 {
+					continue
+				}
+				nc++
+				key := "read buffer handed to NewNetlinkClient by " + fnName(cs.Caller)
+				// make([]byte, n[, c]) with constant sizes is an array allocation sliced [:n]
+				var k int64
+				isK := false
+				lenT := ""
+				switch v := ci.Common().Args[2].(type) {
+				case *ssa.MakeSlice:
+					k, isK = constInt(v.Len)
+					lenT = Term(v.Len)
+				case *ssa.Slice:
+					if al, isAl := v.X.(*ssa.Alloc); isAl && v.Low == nil {
+						if arr, isArr := al.Type().(*types.Pointer).Elem().Underlying().(*types.Array); isArr {
+							if v.High == nil {
+								k, isK = arr.Len(), true
+							} else {
+								k, isK = constInt(v.High)
+							}
+							lenT = fmt.Sprint(k)
+						}
+					}
+				}
+				if lenT == "" {
+					r.Undecided(key, cs.Instr.Pos(), "the buffer is not a make([]byte, n) at the call")
+					continue
+				}
+				hl, _ := strconv.ParseInt(hdrLen, 10, 64)
+				want := int64(maxLen) + hl
+				r.Check(isK && k >= want, key, cs.Instr.Pos(), fmt.Sprintf("len >= %d", want),
+					fmt.Sprintf("the audit client's read buffer has length %s (capacity does not count: NewNetlinkClient replaces a zero-length buffer by a page, and Recvfrom fills len bytes); the kernel sends up to %d bytes, longer records are cut without an error", lenT, want))
+			}
+			r.Check(nc >= 1, "NewNetlinkClient is called by the audit client", fn.Pos(), "", "no call of NewNetlinkClient found in the root package")
+		}
 	}
 	r.Rule("C18.R4", "parseNetlinkAuditMessage: the header view and buf[NLMSG_HDRLEN:] are dominated by len(buf) >= NLMSG_HDRLEN; exactly one message; a short buffer is an error", 2)
 	{
